@@ -274,3 +274,38 @@ fn hot_reloading_thread(
 
     log::info!("Stopping hot-reloading");
 }
+
+/// Verification hooks: feed `notify` events to the built-in watcher's handler and collect the
+/// entries it sends.
+#[cfg(assets_manager_verif)]
+pub(crate) mod verif {
+    use super::*;
+
+    pub struct WatcherProbe {
+        handler: Box<dyn notify::EventHandler>,
+        events: Receiver<Events>,
+    }
+
+    impl WatcherProbe {
+        pub fn new(roots: Vec<std::path::PathBuf>) -> Self {
+            let (tx, rx) = channel::unbounded();
+            WatcherProbe {
+                handler: Box::new(watcher::verif_make_handler(roots, EventSender(tx))),
+                events: rx,
+            }
+        }
+
+        pub fn feed(&mut self, event: notify::Event) -> Vec<OwnedDirEntry> {
+            self.handler.handle_event(Ok(event));
+            let mut out = Vec::new();
+            while let Ok(msg) = self.events.try_recv() {
+                msg.for_each(|e| out.push(e));
+            }
+            out
+        }
+    }
+
+    pub fn id_of_path(root: &std::path::Path, path: &std::path::Path) -> Option<OwnedDirEntry> {
+        watcher::verif_id_of_path(root, path)
+    }
+}
